@@ -342,6 +342,8 @@ def _eo(tree):
             if _self(node, "_y_best"):
                 return "ybest"
             raise U(f"EO: unknown term {ast.unparse(node)} in prediction_constant")
+        if isinstance(node, ast.Name) and node.id in la and node.id not in (rr, pvar):
+            return _expr(la[node.id], atom_pc)          # a local of the rule loop, through its single assignment
         if isinstance(node, (ast.Name, ast.Call, ast.Subscript)):
             raise U(f"EO: unknown term {ast.unparse(node)} in prediction_constant")
         return None
